@@ -7,7 +7,10 @@
 mod asmref;
 mod common;
 mod isa;
+mod isaeng;
+mod refmodel;
 mod text;
+mod vm;
 
 use common::*;
 use serde_json::Value;
@@ -19,6 +22,9 @@ fn usage() -> ! {
 
 fn run_engine(prop: &str, s: &mut Sink) {
     match prop {
+        "C01" => isaeng::run(s, vm::Eng::Interp),
+        "C03" => isaeng::run(s, vm::Eng::Jit),
+        "C04" => isaeng::run(s, vm::Eng::Cl),
         "C13" => text::run_c13(s),
         "C14" => text::run_c14(s),
         "C15" => text::run_c15(s),
@@ -33,6 +39,7 @@ fn run_engine(prop: &str, s: &mut Sink) {
 
 pub fn replay_value(rp: &Value) -> Vec<String> {
     match rp["kind"].as_str().unwrap_or("") {
+        "isa-l1" => isaeng::replay_l1(rp),
         "asm" => text::replay_asm(rp),
         "asm-total" => text::replay_asm_total(rp),
         "disasm" => text::replay_disasm(rp),
